@@ -81,6 +81,9 @@ def coherent_py(net):
 	if len(set(labels)) != len(labels):
 		bad.append('duplicate node index')
 	byl = {n.index: n for n in net.nodes}
+	stale = [k for k in net.nodes_by_index if k is not None and k not in byl]	# (None -> None is a documented convenience entry)
+	if stale:
+		bad.append('nodes_by_index still answers for %s, which are not indices of nodes of the network' % stale)
 	for n in net.nodes:
 		if net.nodes_by_index.get(n.index) is not n:
 			bad.append('nodes_by_index[%s] is not the node with that index' % n.index)
